@@ -70,8 +70,10 @@ pub struct LoadOut {
     pub borrows: Vec<Borrow>,
     /// backing region (address, length) when the hook is compiled in and the loader has one
     pub region: Option<(usize, usize)>,
-    /// bytes of the region after `file_len`, if any, are all zero
-    pub tail: Option<Vec<u8>>,
+    /// bytes of the region after the file's length are all zero
+    pub tail_zero: Option<bool>,
+    /// the first `file_len` bytes of the region equal the file
+    pub prefix_is_file: Option<bool>,
 }
 
 /// Object-safe view of a subject.
@@ -104,14 +106,22 @@ where
     Box::new(Wrap::<S>(PhantomData))
 }
 
-fn memcase_out<S: Subject>(case: &epserde::deser::MemCase<<S::T as DeserializeInner>::DeserType<'static>>) -> LoadOut {
+fn memcase_out<S: Subject>(case: &epserde::deser::MemCase<<S::T as DeserializeInner>::DeserType<'static>>, file: &[u8]) -> LoadOut {
     let mut b = Borrows::default();
     let val = S::eps_to_val(&**case, &mut b);
     #[cfg(epserde_verif)]
-    let region = case.verif_backend_bytes().map(|r| (r.as_ptr() as usize, r.len()));
+    {
+        let bytes = case.verif_backend_bytes();
+        let region = bytes.map(|r| (r.as_ptr() as usize, r.len()));
+        let tail_zero = bytes.map(|r| r.len() >= file.len() && r[file.len()..].iter().all(|x| *x == 0));
+        let prefix_is_file = bytes.map(|r| r.len() >= file.len() && &r[..file.len()] == file);
+        LoadOut { val, borrows: b.0, region, tail_zero, prefix_is_file }
+    }
     #[cfg(not(epserde_verif))]
-    let region: Option<(usize, usize)> = None;
-    LoadOut { val, borrows: b.0, region, tail: None }
+    {
+        let _ = file;
+        LoadOut { val, borrows: b.0, region: None, tail_zero: None, prefix_is_file: None }
+    }
 }
 
 impl<S: Subject> DynSubject for Wrap<S>
@@ -196,9 +206,11 @@ where
                     Script::Boxed => *Box::new(t),
                     _ => t,
                 };
-                Ok(LoadOut { val: S::full_to_val(&t), borrows: vec![], region: None, tail: None })
+                Ok(LoadOut { val: S::full_to_val(&t), borrows: vec![], region: None, tail_zero: None, prefix_is_file: None })
             }
             _ => {
+                let file = std::fs::read(path)?;
+                let file = &file[..];
                 let case: epserde::deser::MemCase<<S::T as DeserializeInner>::DeserType<'static>> = match loader {
                     Loader::LoadMem => <S::T as Deserialize>::load_mem(path)?,
                     #[cfg(feature = "mmap")]
@@ -211,10 +223,10 @@ where
                     Loader::LoadFull => unreachable!(),
                 };
                 match script {
-                    Script::Direct => Ok(memcase_out::<S>(&case)),
+                    Script::Direct => Ok(memcase_out::<S>(&case, file)),
                     Script::Boxed => {
                         let b = Box::new(case);
-                        Ok(memcase_out::<S>(&b))
+                        Ok(memcase_out::<S>(&b, file))
                     }
                     Script::ThroughVec => {
                         let mut v = Vec::new();
@@ -225,21 +237,22 @@ where
                             v.push(c);
                         }
                         let c = v.pop().unwrap();
-                        Ok(memcase_out::<S>(&c))
+                        Ok(memcase_out::<S>(&c, file))
                     }
                     Script::SendToThread => {
                         let (tx, rx) = std::sync::mpsc::channel();
                         tx.send(case).unwrap();
+                        let owned = file.to_vec();
                         let h = std::thread::spawn(move || {
                             let c = rx.recv().unwrap();
-                            memcase_out::<S>(&c)
+                            memcase_out::<S>(&c, &owned)
                         });
                         h.join().map_err(|_| anyhow::anyhow!("receiver thread panicked"))
                     }
                     Script::SharedThreads => {
-                        let first = memcase_out::<S>(&case);
+                        let first = memcase_out::<S>(&case, file);
                         let outs: Vec<LoadOut> = std::thread::scope(|sc| {
-                            let hs: Vec<_> = (0..4).map(|_| sc.spawn(|| memcase_out::<S>(&case))).collect();
+                            let hs: Vec<_> = (0..4).map(|_| sc.spawn(|| memcase_out::<S>(&case, file))).collect();
                             hs.into_iter().map(|h| h.join().unwrap()).collect()
                         });
                         for o in &outs {
@@ -250,7 +263,7 @@ where
                         Ok(first)
                     }
                     Script::DropElsewhere => {
-                        let out = memcase_out::<S>(&case);
+                        let out = memcase_out::<S>(&case, file);
                         std::thread::spawn(move || drop(case)).join().map_err(|_| anyhow::anyhow!("dropping thread panicked"))?;
                         Ok(out)
                     }
